@@ -10,8 +10,13 @@ usage: seed_confirm.py Cxx mN [--no-confirm]
 import glob, json, os, re, shutil, subprocess, sys
 
 ROOT = os.path.dirname(os.path.dirname(os.path.abspath(__file__)))
-SCR = "/tmp/seedconfirm"
+SCR = os.environ.get("SEED_SCR", "/tmp/seedconfirm")
+# the repository working tree the change is applied to for the check run (a lane of its own: SEED_REPO=<worktree of /repo>,
+# with this script run from a worktree of /verif; the checks then read VERIF_REPO)
+TREE = os.environ.get("SEED_REPO", "/repo")
 ENV = dict(os.environ, CARGO_NET_OFFLINE="true")
+if TREE != "/repo":
+    ENV["VERIF_REPO"] = TREE
 
 
 def sh(cmd, cwd=None, timeout=3000):
@@ -32,6 +37,8 @@ def main():
     src = "/tmp/seed/%s-out/%s" % (pid, mn)
     if not os.path.isdir(src):
         src = "/tmp/seed2/%s-out/%s" % (pid, mn)
+    if not os.path.isdir(src):
+        src = "/tmp/seed3/%s-out/%s" % (pid, mn)
     if not os.path.isdir(src):
         src = os.path.join(ROOT, "seeded", "%s-%s" % (pid, mn))
     patch = os.path.join(src, "patch.diff")
@@ -60,11 +67,11 @@ def main():
         else:
             meta["note"] = "demonstration is not a Rust test; confirmed by hand (see confirm.txt)"
     # run the check against the change applied to /repo
-    rca, outa = sh(["git", "-C", "/repo", "apply", "--3way", patch])
+    rca, outa = sh(["git", "-C", TREE, "apply", "--3way", patch])
     if rca != 0:
-        rca, outa = sh(["git", "-C", "/repo", "apply", patch])
+        rca, outa = sh(["git", "-C", TREE, "apply", patch])
     if rca != 0:
-        print("PATCH DOES NOT APPLY to /repo:", outa)
+        print("PATCH DOES NOT APPLY to %s:" % TREE, outa)
         meta["check"] = "patch does not apply"
     else:
         rc, out = sh(["./check", pid], cwd=ROOT)
@@ -72,7 +79,7 @@ def main():
         verdict = [l for l in out.splitlines() if l.startswith("[verdict]")]
         meta["check"] = {"cmd": "./check %s" % pid, "exit": rc, "violation_line": viol[:1], "verdict": [v[:400] for v in verdict[:2]],
                          "detected": rc == 1 and bool(viol), "with_failing_input": bool(viol) and "no-failing-input-found" not in viol[0]}
-        sh(["git", "-C", "/repo", "reset", "-q", "--hard", "HEAD"])
+        sh(["git", "-C", TREE, "reset", "-q", "--hard", "HEAD"])
     dst = os.path.join(ROOT, "seeded", "%s-%s" % (pid, mn))
     if os.path.abspath(src) != os.path.abspath(dst):
         os.makedirs(dst, exist_ok=True)
